@@ -5,6 +5,8 @@ REAL_NATIVE = ["native.Package", "native.CombinedPackage", "native.CombinedImpor
 HOOK_COMMITS = ["65a4ceb"]
 
 ENGINES = [
+    {"name": "buildsim", "path": "/verif/sim/simio + /verif/sim/props/{c18,c04}", "serves_properties": ["C18", "C04"],
+     "kind_free_text": "builds run against a simulated disk (recording fs.FS with injected I/O errors, not-found lies, short/zero reads, torn and bit-flipped stored files) and, for C04, inside a testing/synctest bubble so that the parser/lexer goroutine pair is observed for deadlock and leaked goroutines; token channel capacity is a per-run knob (guarded hook)"},
     {"name": "vmsim", "path": "/verif/sim/sched + /verif/sim/props/{c14,c11,c10}", "serves_properties": ["C14", "C11", "C10"],
      "kind_free_text": "deterministic scheduler for code running on Scriggo's VM: real goroutines inside a testing/synctest bubble park on private condition variables at the guarded hooks (every instruction, before/after every channel operation, go statements, natives, writers); the bubble root draws the next goroutine, its quantum, the winning select case, cancellation points and clock jumps from one recorded stream; gc-compiled reference; race-detector mode"},
     {"name": "faultsim", "path": "/verif/sim/props/{c12,c13,c22}", "serves_properties": ["C12", "C13", "C22"],
@@ -98,5 +100,19 @@ CHECKS = {
         "level_text": "Seeded search over histories (which client runs which input when) and interleavings of runs sharing one compiled artefact. Oracle: bytes written, printed text, native event sequence, error / panic value and the values of pointer-passed variables of every run equal those of a solo run of a fresh build; no deadlock or step cap; in race mode no race-detector report (goroutines park on private condition variables, so only the interpreter's own synchronisation orders their steps).",
         "level_note": "Self-referential: a defect that affects solo and concurrent runs alike is invisible here (it belongs to other properties). sync.Pool retention and allocation addresses are not observed. Trusts the scheduler's determinism (self-tested on every run).",
         "assumptions": ["natives and stringers used by the artefacts are themselves reentrant", "inputs passed by pointer are not shared between concurrent runs by the caller"],
+    },
+    "C18": {
+        "id": "C18", "pkg": "c18", "test": "TestC18", "level": "exploration",
+        "runs": {"quick": 8000, "thorough": 1000000},
+        "chunk": 5000,
+        "rule": "each run draws a file tree (1-10 files in 0-3 directory levels, names with dots, spaces and non-ASCII letters) whose files reference each other through extends / import / render / render-default with relative, absolute and dot-dot paths (inside and escaping the root), self references, cycles, missing files, occasionally syntactically invalid paths; builds it through a recording file system (plain fs.FS, fs.ReadFileFS, FormatFS, or scriggo.Files behind the recorder; optionally 1-byte reads) fault-free, once more with every escaping reference retargeted to a missing in-root file, and once per file-system call k of the fault-free history with a drawn fault at k (I/O error, not-found lie, short read, data+EOF, zero-byte read). "
+                "evaluations = builds; distinct_nontrivial = distinct (tree, fs kind) pairs plus distinct (tree, fs kind, k, fault kind) tuples whose fault fired",
+        "components": {"real": ["scriggo.BuildTemplate", "compiler.ParseTemplate, rooted, parseNodeFile (cache and cycle stack), readFileAndFormat", "io/fs.ReadFile", "scriggo.Files (one configuration)"],
+                       "stub": ["fs.FS / fs.File / ReadFileFS / FormatFS implementations (recording + fault seam)"]},
+        "engine": "buildsim", "design_ref": "DESIGN.md section 5, C18",
+        "technique": "deterministic simulation with fault injection: recording and faulty file system under generated reference graphs; invariants over the recorded call history; independent path resolver as reference model",
+        "level_text": "Seeded search over reference graphs with the storage fault point enumerated per graph. Invariants over each build's recorded history: every requested name is a valid rooted path; it is the root or the independent (segment-stack) resolution of a reference occurring in a file already delivered in this build, so escaping references never reach the file system; no file is delivered twice; requests <= 1 + files + references. Fault-free: a cycle reachable from the root yields an error; a build with escaping references has the same outcome as with those references retargeted to a missing in-root file.",
+        "level_note": "Trusts the independent resolver and the generator's record of which references each file contains. Builds that fail for unrelated reasons (import of a file with text, format rules) still have their call history checked. In-root names beginning with `..` are not generated.",
+        "assumptions": ["the file system presents the same content for a name throughout one build"],
     },
 }
